@@ -20,11 +20,12 @@ func (m *Mutex) Lock() {
 }
 
 func (m *Mutex) Unlock() {
-	if s, _ := curThread(); s != nil {
+	if s, t := curThread(); s != nil {
 		if !m.held {
 			panic("sync: unlock of unlocked mutex (verif model)")
 		}
 		m.held, m.owner = false, nil
+		s.releasePoint(t, m)
 		return
 	}
 	m.mu.Unlock()
@@ -65,11 +66,12 @@ func (rw *RWMutex) Lock() {
 }
 
 func (rw *RWMutex) Unlock() {
-	if s, _ := curThread(); s != nil {
+	if s, t := curThread(); s != nil {
 		if rw.writer == nil {
 			panic("sync: Unlock of unlocked RWMutex (verif model)")
 		}
 		rw.writer = nil
+		s.releasePoint(t, rw)
 		return
 	}
 	rw.mu.Unlock()
@@ -84,11 +86,12 @@ func (rw *RWMutex) RLock() {
 }
 
 func (rw *RWMutex) RUnlock() {
-	if s, _ := curThread(); s != nil {
+	if s, t := curThread(); s != nil {
 		if rw.readers <= 0 {
 			panic("sync: RUnlock of unlocked RWMutex (verif model)")
 		}
 		rw.readers--
+		s.releasePoint(t, rw)
 		return
 	}
 	rw.mu.RUnlock()
